@@ -84,6 +84,14 @@ func (w *World) resolve(cs *clientState, op Op) uint64 {
 	return 0
 }
 
+// Bytes decodes a scenario string: "hex:<hex>" is binary, anything else is literal.
+func Bytes(s string) []byte {
+	if strings.HasPrefix(s, "hex:") {
+		return unhex(s[4:])
+	}
+	return []byte(s)
+}
+
 func kvOf(k *proto.KeyValue) *KV {
 	if k == nil {
 		return nil
@@ -140,7 +148,7 @@ func (w *World) exec(cs *clientState, idx int, op Op) *Rec {
 	}
 	switch op.K {
 	case "create":
-		resp, err := b.Create(ctx, &proto.CreateRequest{Key: []byte(op.Key), Value: []byte(op.Val)})
+		resp, err := b.Create(ctx, &proto.CreateRequest{Key: Bytes(op.Key), Value: Bytes(op.Val)})
 		if err != nil {
 			r.Err = err.Error()
 		} else {
@@ -151,7 +159,7 @@ func (w *World) exec(cs *clientState, idx int, op Op) *Rec {
 			}
 		}
 	case "update":
-		resp, err := b.Update(ctx, &proto.UpdateRequest{Kv: &proto.KeyValue{Key: []byte(op.Key), Value: []byte(op.Val), Revision: r.RevAbs}})
+		resp, err := b.Update(ctx, &proto.UpdateRequest{Kv: &proto.KeyValue{Key: Bytes(op.Key), Value: Bytes(op.Val), Revision: r.RevAbs}})
 		if err != nil {
 			r.Err = err.Error()
 		} else {
@@ -164,7 +172,7 @@ func (w *World) exec(cs *clientState, idx int, op Op) *Rec {
 			}
 		}
 	case "delete":
-		resp, err := b.Delete(ctx, &proto.DeleteRequest{Key: []byte(op.Key), Revision: r.RevAbs})
+		resp, err := b.Delete(ctx, &proto.DeleteRequest{Key: Bytes(op.Key), Revision: r.RevAbs})
 		if err != nil {
 			r.Err = err.Error()
 		} else {
@@ -180,7 +188,7 @@ func (w *World) exec(cs *clientState, idx int, op Op) *Rec {
 			}
 		}
 	case "get":
-		resp, err := b.Get(ctx, &proto.GetRequest{Key: []byte(op.Key), Revision: r.RevAbs})
+		resp, err := b.Get(ctx, &proto.GetRequest{Key: Bytes(op.Key), Revision: r.RevAbs})
 		if err != nil {
 			r.Err = err.Error()
 		} else {
@@ -191,7 +199,7 @@ func (w *World) exec(cs *clientState, idx int, op Op) *Rec {
 			}
 		}
 	case "list":
-		resp, err := b.List(ctx, &proto.RangeRequest{Key: []byte(op.Key), End: []byte(op.End), Revision: r.RevAbs, Limit: op.Limit})
+		resp, err := b.List(ctx, &proto.RangeRequest{Key: Bytes(op.Key), End: Bytes(op.End), Revision: r.RevAbs, Limit: op.Limit})
 		if err != nil {
 			r.Err = err.Error()
 		} else {
@@ -205,7 +213,7 @@ func (w *World) exec(cs *clientState, idx int, op Op) *Rec {
 			}
 		}
 	case "count":
-		resp, err := b.Count(ctx, &proto.CountRequest{Key: []byte(op.Key), End: []byte(op.End)})
+		resp, err := b.Count(ctx, &proto.CountRequest{Key: Bytes(op.Key), End: Bytes(op.End)})
 		if err != nil {
 			r.Err = err.Error()
 		} else {
